@@ -140,7 +140,11 @@ def gen_statements(r, pool_t, pools, k):
             out.append("datetime %s %s" % (op, s))
         elif a == "origin_time":
             t = int(r.choice(pool_t)) + int(r.choice([0, 0, 1, -1]))
-            out.append("origin_time %s %s" % (op, str(t) if r.uniform() < 0.5 else repr(float(t))))
+            if r.uniform() < 0.25:
+                # thresholds between two integer milliseconds (exact binary fractions; |t| < 2**53 so t + frac is exact)
+                out.append("origin_time %s %r" % (op, t + float(r.choice([0.5, -0.5, 0.25, 0.75]))))
+            else:
+                out.append("origin_time %s %s" % (op, str(t) if r.uniform() < 0.5 else repr(float(t))))
         else:
             key = {"latitude": "lat", "longitude": "lon", "depth": "dep", "magnitude": "mag"}[a]
             v = float(r.choice(pools[key])) + float(r.choice([0, 0, 0, 0.05, -0.05]))
@@ -265,8 +269,22 @@ def ex_spatial(ctx, lat_case, n, seed=0):
     cat = fixtures.catalog(lon, lat, numpy.full(lon.size, 5.0))
     want = [("%d" % i).encode() for i in range(lon.size) if primary[i] >= 0]
     ctx.count(1)
-    for in_place in (False, True):
-        c = fixtures.catalog(lon, lat, numpy.full(lon.size, 5.0))
+    from decimal import Decimal
+    dhd = Decimal(lat_case["dh"])
+    # a larger region (the full rectangle, two cells wider on every side) the catalog may already be bound to
+    big = fixtures.region(lat_case["nx"] + 4, lat_case["ny"] + 4, lat_case["dh"], Decimal(lat_case["ax"]) - 2 * dhd, Decimal(lat_case["ay"]) - 2 * dhd)
+    for in_place, bound in ((False, None), (True, None), (False, "ctor"), (True, "earlier-filter")):
+        c = fixtures.catalog(lon, lat, numpy.full(lon.size, 5.0), region=big if bound == "ctor" else None)
+        tags = dict(tags, bound_to_other_region=bound)
+        if bound == "earlier-filter":
+            # history: filtered to the larger region first (which binds it), then to the region under test
+            okb, c, tbb = ctx.call(c.filter_spatial, big, in_place=False)
+            if not okb:
+                continue
+            ctx.mon("history:spatial-rebind", 1)
+        want_here = want
+        if bound == "ctor":
+            ctx.mon("history:spatial-rebind", 1)
         ok, res, tb = ctx.call(c.filter_spatial, reg, in_place=in_place)
         if not ok:
             ctx.violate("filter_spatial raised", rc, observed=repr(res), tb=tb, tags=tags)
